@@ -115,9 +115,11 @@ pub struct KEntry {
     msg: String,
     ts: SystemTime,
     split: AllowSplitEntries,
+    /// the EntryDimensions config lives INSIDE the entry (as `#[metrics(emf::dimension_sets)]`
+    /// generates it), always in this one field: its value depends on the kind, its address only on
+    /// where the entry is stored - entries built one after the other into the same slot have
+    /// different configs at the same address
     edims: EntryDimensions,
-    /// a second, different EntryDimensions value
-    edims2: EntryDimensions,
     shard: String,
     big: Arc<Big>,
 }
@@ -133,8 +135,9 @@ impl KEntry {
             msg: format!("validation failed somewhere ({salt})"),
             ts: SystemTime::UNIX_EPOCH + Duration::from_millis(1_700_000_000_000 + salt * 1000 + 7),
             split: AllowSplitEntries::new(),
-            edims: EntryDimensions::new(Cow::Owned(vec![Cow::Owned(vec![Cow::Borrowed("Extra")])])),
-            edims2: EntryDimensions::new(Cow::Owned(vec![Cow::Owned(vec![Cow::Borrowed("Shard")])])),
+            edims: EntryDimensions::new(Cow::Owned(vec![Cow::Owned(vec![Cow::Borrowed(
+                if kind == "entryDims2" || kind == "edimsMissing2" { "Shard" } else { "Extra" },
+            )])])),
             shard: format!("shard-{salt}"),
             big: big.clone(),
         }
@@ -145,6 +148,15 @@ impl KEntry {
         match self.kind.as_str() {
             "sampled" => Some(0.3),
             "badRate" => Some(0.0),
+            _ => None,
+        }
+    }
+
+    /// (address of the EntryDimensions config, its value) if the kind hands one to the formatter
+    pub fn entry_dimensions_config(&self) -> Option<(usize, &'static str)> {
+        match self.kind.as_str() {
+            "entryDims" | "edimsTwice" | "edimsMissing" | "edimsMetric" => Some((&self.edims as *const EntryDimensions as usize, "X")),
+            "entryDims2" | "edimsMissing2" => Some((&self.edims as *const EntryDimensions as usize, "Y")),
             _ => None,
         }
     }
@@ -261,7 +273,7 @@ impl Entry for KEntry {
                 w.value("Latency", &latency);
             }
             "entryDims2" => {
-                w.config(&self.edims2);
+                w.config(&self.edims);
                 w.timestamp(self.ts);
                 w.value("Operation", self.op.as_str());
                 w.value("Shard", self.shard.as_str());
@@ -270,7 +282,7 @@ impl Entry for KEntry {
             // entry dimensions declared (same values as entryDims / entryDims2), the member they
             // name is absent: rejected only because config() registers the name for THIS entry
             "edimsMissing" | "edimsMissing2" => {
-                w.config(if self.kind == "edimsMissing" { &self.edims } else { &self.edims2 });
+                w.config(&self.edims);
                 w.timestamp(self.ts);
                 w.value("Operation", self.op.as_str());
                 w.value("Latency", &latency);
